@@ -35,7 +35,6 @@ theorem facts_as_modelled :
     Gen.removeSCTListReturns = "removeExtension(tbsData, OIDExtensionCTSCT)" ∧
     Gen.removeCTPoisonReturns = "BuildPrecertTBS(tbsData, nil)" ∧
     Gen.buildPrecertTBSFirst = "data, err := removeExtension(tbsData, OIDExtensionCTPoison)" ∧
-    Gen.removeExtensionEdit = ["tbs.Extensions = append(tbs.Extensions[:extAt], tbs.Extensions[extAt+1:]...)"] ∧
     Gen.leafFromChainCalls = ["x509.BuildPrecertTBS(cert.RawTBSCertificate, preIssuer)"] ∧
     Gen.leafForEmbeddedCalls = ["x509.RemoveSCTList(cert.RawTBSCertificate)"] ∧
     -- the authority-key-id update of BuildPrecertTBS (`akiUpdate`, `setFirst`, `eraseFirst`, `preIssuerEdit` are its transcription)
@@ -44,13 +43,43 @@ theorem facts_as_modelled :
     Gen.buildPrecertKeyAtLoop =
       "for i, ext := range tbs.Extensions { if ext.Id.Equal(OIDExtensionAuthorityKeyId) { keyAt = i break } }" ∧
     Gen.buildPrecertAkiConds = ["if keyAt >= 0", "  if issuerKeyID != nil", "  else", "else if issuerKeyID != nil"] ∧
-    Gen.buildPrecertValueEdit = ["tbs.Extensions[keyAt].Value = issuerKeyID"] ∧
-    Gen.buildPrecertExtEdits = ["tbs.Extensions = append(tbs.Extensions[:keyAt], tbs.Extensions[keyAt+1:]...)",
-                                "tbs.Extensions = append(tbs.Extensions, authKeyIDExt)"] ∧
     Gen.buildPrecertAppended = ["authKeyIDExt := pkix.Extension{ Id: OIDExtensionAuthorityKeyId, Critical: false, Value: issuerKeyID, }"] ∧
-    Gen.buildPrecertIssuerEdit = ["tbs.Issuer.FullBytes = preIssuer.RawIssuer"] := by
-  refine ⟨by decide, by decide, by decide, by decide, by decide, by decide, by decide, by decide, by decide, by decide,
-    by decide, by decide, by decide, by decide, by decide, by decide, by decide, by decide, by decide, by decide, by decide⟩
+    -- the COMPLETE list of statements that write to `tbs` (or hand out its address), each with every condition that guards it:
+    -- an additional write, a dropped one (`tbs.Raw = nil`), or one moved under another condition changes these lists
+    Gen.removeExtensionWrites =
+      ["=> var tbs tbsCertificate",
+       "=> rest, err := asn1.Unmarshal(tbsData, &tbs)",
+       "=> tbs.Extensions = append(tbs.Extensions[:extAt], tbs.Extensions[extAt+1:]...)",
+       "=> tbs.Raw = nil"] ∧
+    Gen.buildPrecertWrites =
+      ["=> var tbs tbsCertificate",
+       "=> rest, err := asn1.Unmarshal(data, &tbs)",
+       "if preIssuer != nil; => tbs.Issuer.FullBytes = preIssuer.RawIssuer",
+       "if preIssuer != nil; if keyAt >= 0; if issuerKeyID != nil; => tbs.Extensions[keyAt].Value = issuerKeyID",
+       "if preIssuer != nil; if keyAt >= 0; else of issuerKeyID != nil; => tbs.Extensions = append(tbs.Extensions[:keyAt], tbs.Extensions[keyAt+1:]...)",
+       "if preIssuer != nil; else of keyAt >= 0; if issuerKeyID != nil; => tbs.Extensions = append(tbs.Extensions, authKeyIDExt)",
+       "if preIssuer != nil; => tbs.Raw = nil"] ∧
+    -- what is marshalled and returned
+    Gen.removeExtensionMarshals = ["=> data, err := asn1.Marshal(tbs)"] ∧
+    Gen.buildPrecertMarshals = ["=> data, err = asn1.Marshal(tbs)"] ∧
+    Gen.removeExtensionData = ["=> data, err := asn1.Marshal(tbs)"] ∧
+    Gen.buildPrecertData = ["=> data, err := removeExtension(tbsData, OIDExtensionCTPoison)", "=> data, err = asn1.Marshal(tbs)"] ∧
+    Gen.removeExtensionReturns =
+      ["if err != nil; => return nil, <error>",
+       "else of err != nil; if rLen > 0; => return nil, <error>",
+       "range tbs.Extensions; if ext.Id.Equal(oid); <regenerated test on extAt>; => return nil, <error>",
+       "<regenerated test on extAt>; => return nil, <error>",
+       "if err != nil; => return nil, <error>",
+       "=> return data, nil"] ∧
+    Gen.buildPrecertReturns =
+      ["if err != nil; => return nil, <error>",
+       "if err != nil; => return nil, <error>",
+       "else of err != nil; if rLen > 0; => return nil, <error>",
+       "if preIssuer != nil; if !seenCTEKU; => return nil, <error>",
+       "if err != nil; => return nil, <error>",
+       "=> return data, nil"] := by
+  repeat' apply And.intro
+  all_goals decide
 
 /-- the SCT-list length prefixes are two bytes wide for the regenerated limits (`byteCount(maxlen) = 2`) -/
 def genLim : SctLimits := ⟨Gen.sctItemMin, Gen.sctItemMax, Gen.sctListMin, Gen.sctListMax⟩
